@@ -59,6 +59,8 @@ Proof.
   intros V Q. destruct m; cbn [items]; try constructor.
   - destruct (quietb o) eqn:E; [|constructor]. constructor; [destruct o; try discriminate; exact I | constructor].
   - destruct (cc_outQ c) as [|o q]; [constructor|]. inversion Q; subst. constructor; [assumption | constructor].
+  - (* MWlReset *) exact I.
+  - constructor.
   - destruct (cl_pend_get _ _) as [pb|]; [|constructor]. destruct wr; [|constructor].
     destruct (write_data_shape (cc_maxFrame c) id (cs_chunk c pb) (cs_end c pb)) as (l & A & _). rewrite A. apply frames_wu_ok.
   - exact I.
